@@ -363,14 +363,27 @@ fn verify_threshold_constraints(
 /// keys and link objects as values. We already check if
 /// the links of different functionaries are identical.
 fn reduce_chain_links(
+    layout: &LayoutMetadata,
     link_files: HashMap<String, HashMap<KeyId, LinkMetadata>>,
 ) -> Result<HashMap<String, LinkMetadata>> {
     let mut res = HashMap::new();
     link_files.iter().try_for_each(|(k, v)| -> Result<()> {
+        // When several functionaries provided a link for a step, the one
+        // that is used must not depend on the iteration order of the map:
+        // take the link of the functionary listed first in the step's
+        // pubkeys (falling back to the smallest key id).
+        let preferred = layout
+            .steps
+            .iter()
+            .find(|step| &step.name == k)
+            .and_then(|step| {
+                step.pub_keys.iter().find(|key_id| v.contains_key(*key_id))
+            })
+            .or_else(|| v.keys().min());
         res.insert(
             k.clone(),
-            v.values()
-                .last()
+            preferred
+                .and_then(|key_id| v.get(key_id))
                 .ok_or_else(|| {
                     Error::VerificationFailure(format!(
                         "step {} does not have enough LinkMetadata.",
@@ -548,7 +561,7 @@ pub fn in_toto_verify(
     verify_threshold_constraints(&layout, &link_files)?;
 
     // Reduce link files
-    let mut reduced_link_files = reduce_chain_links(link_files)?;
+    let mut reduced_link_files = reduce_chain_links(&layout, link_files)?;
 
     let steps = layout
         .steps
